@@ -254,6 +254,11 @@ fn occupancy_patterns(n: u64) -> Vec<(&'static str, Vec<u64>)> {
         v.push(("all", (0..n).collect()));
     }
     v.retain(|(nm, s)| *nm == "empty" || !s.is_empty());
+    if n > 65536 {
+        // a key for one given bucket of a 2^24-bucket table costs ~2^24 hash evaluations: only sparse patterns
+        v.retain(|(_, s)| s.len() <= 3);
+        v.push(("random200", (0..200u64).map(|i| (i.wrapping_mul(0x9E37_79B9_7F4A_7C15) >> 7) % n).collect()));
+    }
     v
 }
 
@@ -263,9 +268,16 @@ fn c04_pattern_case(a: &Args, n: u64, pname: &str, buckets: &[u64], ctx: &mut Ct
     let cap = 1500usize;
     let step = (buckets.len() / cap).max(1);
     let chosen: Vec<u64> = buckets.iter().copied().step_by(step).collect();
-    for (j, &b) in chosen.iter().enumerate() {
-        let want = if j % 5 == 0 { 3 } else { 1 };
-        keys.extend(keys_for_bucket(n, b, want, rng.next() % 1000, 1 + (j % 13)));
+    if pname == "random200" {
+        // take the keys where they fall instead of searching one per bucket
+        for j in 0..200u32 {
+            keys.push(format!("r{}_{j}", rng.next() % 100_000).into_bytes());
+        }
+    } else {
+        for (j, &b) in chosen.iter().enumerate() {
+            let want = if j % 5 == 0 && n <= 65536 { 3 } else { 1 };
+            keys.extend(keys_for_bucket(n, b, want, rng.next() % 1000, 1 + (j % 13)));
+        }
     }
     let mut ops: Vec<Op> = Vec::new();
     for i in 0..keys.len() {
